@@ -96,13 +96,13 @@ pub fn canon_reply(name: &[u8], v: V) -> V {
                 V::Array(pairs.into_iter().flat_map(|(k, v)| vec![k, v]).collect())
             }
             x => x },
-        _ => v,
+        _ => crate::c15::canon_streams(name, v),
     }
 }
 pub fn req_name(req: &V) -> Vec<u8> {
     match req { V::Array(l) => match l.first() { Some(V::Bulk(b)) => b.to_ascii_uppercase(), _ => vec![] }, _ => vec![] }
 }
-const RANDOM_CMDS: &[&[u8]] = &[b"RANDOMKEY", b"SPOP", b"SRANDMEMBER"];
+const RANDOM_CMDS: &[&[u8]] = &[b"RANDOMKEY", b"SPOP", b"SRANDMEMBER", b"XADD"];
 
 pub struct Runner { pub srv: Srv, pub conns: HashMap<i128, Client>, pub t0: Instant, pub logical: i128, pub drift_bad: bool }
 
